@@ -505,6 +505,9 @@ func (g *Gen) wrapPre(n *Node) *Node {
 	if w.PreKind == "failissue" {
 		w.PreIss = PostSpec{Code: rng.Pick(r, []string{"pre_code", "custom", ""}), Path: rng.Pick(r, []string{"", "elsewhere", "a.b"}),
 			Msg: rng.Pick(r, []string{"pre says no", ""}), DType: rng.Pick(r, []string{"string", "number", ""})}
+		if r.P(1, 3) {
+			w.PreIss = PostSpec{Code: "shared"} // the schema-wide sentinel issue value (no path, type or message of its own)
+		}
 	}
 	return w
 }
